@@ -25,12 +25,12 @@ type Engine struct {
 	// tape, builds everything, runs the workload, evaluates the oracles.
 	Main func(s *simrt.Sim, r *RunInfo)
 	// Rule describes generation and what counts as distinct / non-trivial.
-	Rule       string
-	Components map[string]string // real-vs-stub table
+	Rule        string
+	Components  map[string]string // real-vs-stub table
 	Assumptions []string
-	MaxSimTime time.Duration
-	MaxSteps   int
-	DrainTime  time.Duration // extra simulated time at shutdown for un-instrumented background goroutines to end
+	MaxSimTime  time.Duration
+	MaxSteps    int
+	DrainTime   time.Duration // extra simulated time at shutdown for un-instrumented background goroutines to end
 }
 
 // RunInfo is filled by the engine for evidence.
@@ -124,29 +124,29 @@ type Replay struct {
 
 // Summary is what one worker process reports (one JSON document).
 type Summary struct {
-	Engine     string         `json:"engine"`
-	Worker     int            `json:"worker"`
-	Runs       int            `json:"runs"`
-	FirstSeed  uint64         `json:"first_seed"`
-	LastSeed   uint64         `json:"last_seed"`
-	Steps      int            `json:"steps"`
-	Switches   int            `json:"switches"`
-	SimSeconds float64        `json:"sim_seconds"`
-	WallS      float64        `json:"wall_s"`
-	Counters   map[string]int `json:"counters"`
-	Schedules  []uint64       `json:"schedules"` // distinct schedule signatures (capped)
-	States     []uint64       `json:"states"`    // distinct non-trivial abstract states (capped)
-	NSched     int            `json:"n_schedules"`
-	NStates    int            `json:"n_states"`
-	Nontrivial int            `json:"nontrivial_runs"`
-	FaultRuns  int            `json:"fault_runs"`
-	Samples    []any          `json:"samples"`
-	Leftover   int            `json:"leftover_goroutines"`
-	Violations []Replay       `json:"violations"`
-	ReplayPath []string       `json:"replay_paths"`
-	KnownHits  map[string]int `json:"known_hits"` // index in known list -> count
+	Engine     string            `json:"engine"`
+	Worker     int               `json:"worker"`
+	Runs       int               `json:"runs"`
+	FirstSeed  uint64            `json:"first_seed"`
+	LastSeed   uint64            `json:"last_seed"`
+	Steps      int               `json:"steps"`
+	Switches   int               `json:"switches"`
+	SimSeconds float64           `json:"sim_seconds"`
+	WallS      float64           `json:"wall_s"`
+	Counters   map[string]int    `json:"counters"`
+	Schedules  []uint64          `json:"schedules"` // distinct schedule signatures (capped)
+	States     []uint64          `json:"states"`    // distinct non-trivial abstract states (capped)
+	NSched     int               `json:"n_schedules"`
+	NStates    int               `json:"n_states"`
+	Nontrivial int               `json:"nontrivial_runs"`
+	FaultRuns  int               `json:"fault_runs"`
+	Samples    []any             `json:"samples"`
+	Leftover   int               `json:"leftover_goroutines"`
+	Violations []Replay          `json:"violations"`
+	ReplayPath []string          `json:"replay_paths"`
+	KnownHits  map[string]int    `json:"known_hits"` // index in known list -> count
 	KnownEx    map[string]string `json:"known_examples"`
-	Trouble    []string       `json:"trouble"` // harness problems (exit 2)
+	Trouble    []string          `json:"trouble"`              // harness problems (exit 2)
 	LogHashes  map[string]string `json:"log_hashes,omitempty"` // seed -> hash (determinism self-test)
 }
 
